@@ -414,6 +414,7 @@ func runPipeChild(specPath string) {
 		idle = 900 * time.Millisecond
 	}
 	tick := time.NewTicker(25 * time.Millisecond)
+	stopRequested := false
 loop:
 	for {
 		select {
@@ -430,7 +431,7 @@ loop:
 			default:
 				continue
 			}
-			if res.StopCalled || holdQuiescence.Load() {
+			if res.StopCalled || stopRequested || holdQuiescence.Load() {
 				continue
 			}
 			quiet := time.Since(time.Unix(0, lastEvent.Load())) > idle && len(reactor.GetStateTable()) == 0 &&
@@ -440,13 +441,27 @@ loop:
 					res.QuiescentAtMs = time.Since(t0).Milliseconds()
 					res.StateAtQuiet = len(reactor.GetStateTable())
 					if sp.Footprint {
+						// the idle footprint is what the process settles to: connections being torn down and goroutines
+						// winding up are still counted right after quiescence, more so on a loaded machine - sample for up
+						// to 5 s and keep the minimum of each count (a leak never goes down, a wind-down does)
 						time.Sleep(300 * time.Millisecond)
 						res.FDs, res.Goroutines, res.TempFiles = footprint(c.WARCTempDir)
+						for i, stable := 0, 0; i < 47 && stable < 8; i++ {
+							time.Sleep(100 * time.Millisecond)
+							f, g, t := footprint(c.WARCTempDir)
+							if f >= res.FDs && g >= res.Goroutines && t >= res.TempFiles {
+								stable++
+							} else {
+								stable = 0
+							}
+							res.FDs, res.Goroutines, res.TempFiles = min(res.FDs, f), min(res.Goroutines, g), min(res.TempFiles, t)
+						}
 						res.Tokens = reactor.VerifTokensInUse()
 						res.Buckets, res.MaxBuckets = archiver.VerifLimiterTable()
 						res.OpenBodies = int(openBodies.Load())
 					}
 					res.Stats["workers_live"] = int(stats.PreprocessorRoutinesGet() + stats.ArchiverRoutinesGet() + stats.PostprocessorRoutinesGet())
+					stopRequested = true // doStop sets res.StopCalled from its own goroutine: do not measure a second time meanwhile
 					doStop()
 				}
 			}
